@@ -14,6 +14,7 @@ var alphaGrid = []float64{1e-6, 1e-4, 1e-3, 0.01, 0.02, 0.05, 0.1, 0.3, 0.5, 0.9
 // line it emits, so that it can read the real sketches' state to produce the oracle lines
 // (`mv`: the real mapping's Value for every bin a query may report).
 type skGen struct {
+	fine     bool // this history uses full-mantissa weights (and only a few of them)
 	g        *Gen
 	sh       *Runner
 	prop     string
@@ -265,6 +266,12 @@ func (sg *skGen) storeSpec(kinds []string) string {
 
 func (sg *skGen) weight(unitPct int) float64 {
 	r := sg.g.rng
+	if sg.fine {
+		// full-mantissa dyadic weights j/2^52 < 1/4 (j odd): w+1 and (total count)+1 use every
+		// mantissa bit, so their varfloats take all 9 bytes; sums of up to three of them stay below 1
+		// and on the 2^-52 grid, hence exact
+		return float64(r.U64()>>14|1) / float64(uint64(1)<<52)
+	}
 	if r.Bool(unitPct) {
 		return 1
 	}
